@@ -146,6 +146,10 @@ def merge_results(prop, cfg, outdir, shard_runs, known):
         except Exception:
             continue
         watchdog = True
+        if "/harness/stalled" in v["sig"]:
+            # the watchdog saw no progress but no library goroutine spinning or waiting for a lock: nothing is decided
+            inconclusive.append("watchdog: %s\n%s" % (v["sig"], str(v["detail"])[:3000]))
+            continue
         v = {"sig": v["sig"], "detail": v["detail"], "case": v.get("case"), "count": 1, "test": "watchdog"}
         kind = "excluded" if sig_open(v["sig"], known) else "violations"
         if v["sig"] in ev[kind]:
